@@ -20,6 +20,7 @@ def streams(ctx):
         xs += list(range(c - 3, c + 4))
     cap = 3 * 10 ** 8 if q else 2 * 10 ** 9
     xs += gen.structured_x(rng, 2000, cap, 60 if q else 900)
+    xs += gen.structured_x(rng, 30720, 10 ** 5, 40 if q else 400)          # the Legendre regime
     for n in (2, 3):
         for _ in range(12 if q else 150):
             k = rng.randint(2, gen.iroot(n, cap))
